@@ -1,2 +1,310 @@
-import PyrollModel.Heap
+import PyrollProofs.HeapSolve
+import PyrollProofs.HeapCopy
+import PyrollProofs.HeapEdit
 import PyrollModel.Gen.C12
+
+/-!
+  C12 — solving has no side effects on its inputs and no aliasing between positions; deep copies are disjoint
+  and closed.
+
+  Model: `PyrollModel/Heap.lean` (objects with identity, strong entries, weak back-links; `solveU` = `Unit.solve`
+  as an effect trace; `copyObj` = `copy.deepcopy` with memo; `appendUnit`/`replaceUnit`/`setGap` = edits).
+  The classifier producers the model runs are TRANSLATED from the source (`Gen.C12`), as are the shapes of the two
+  shallow copy constructors and the write list of the solve procedure; the certificates below are re-decided on
+  every run.  All theorems hold for arbitrary heaps / sequences / histories (induction over fuel, lists, histories).
+-/
+
+namespace C12
+open Heap
+
+/-- the producers the model runs: translated from rotator/hookimpls.py, roll_pass/hookimpls/profile.py,
+roll_pass/symmetric_roll_pass.py -/
+def P : Producers :=
+  { rot := Gen.C12.rotatorClassifiers, pass := Gen.C12.passOutClassifiers, sym := Gen.C12.symmetricClassifiers }
+
+/-! ## certificates about the translated source -/
+
+/-- every translated classifier producer (rotator, pass, symmetric / three-roll pass, groove, `from_groove`,
+`from_polygon`) changes in place only sets that the same call created (`| {…}`, `set(…)`, a literal) -/
+theorem translated_producers_safe : Gen.C12.producers.all (fun e => e.2.safe) = true := by decide
+
+theorem model_producers_safe : P.Safe := ⟨by decide, by decide, by decide⟩
+
+/-- receivers the solve procedure may assign to: the unit / hook host itself, its own cache and dict, its own
+out-profile, the hook function's bookkeeping set, a (class-level) hook object -/
+def allowedReceivers : List String :=
+  ["self", "self.__cache__", "self.out_profile", "self._active_instances", "instance.__dict__", "instance.__cache__",
+   "owner", "hook"]
+
+/-- the source still has the shape the hand-written model assumes: both copy constructors take the public entries
+only, by reference, set a weak back-link and do nothing else; `init_solve` stores COPIES; the sub-units are fed the
+parent's in-profile and then each other's return value; `solve` returns a fresh public copy of `out_profile`;
+no function of the solve procedure assigns to anything but the allowed receivers (never to `in_profile`, a
+template or a groove) -/
+theorem translated_shapes_certified :
+    Gen.C12.profileInit = { publicOnly := true, byReference := true, weakBackLink := true, other := [] } ∧
+    Gen.C12.rollInit = { publicOnly := true, byReference := true, weakBackLink := true, other := [] } ∧
+    Gen.C12.solveWrites.all (fun w => allowedReceivers.contains w.2.1) = true ∧
+    Gen.C12.stores =
+      [("Unit.init_solve", "in_profile", "self.InProfile(self, in_profile)"),
+       ("Unit.init_solve", "out_profile", "self.OutProfile(self, in_profile)"),
+       ("SymmetricRollPass.__init__", "roll", "self.Roll(roll, self)"),
+       ("Unit._solve_subunits", "last_profile", "self.in_profile"),
+       ("Unit._solve_subunits", "last_profile", "u.solve(last_profile)"),
+       ("Unit.solve", "return",
+        "BaseProfile(**{k: v for k, v in self.out_profile.__dict__.items() if not k.startswith('_')}) <- post_processor.solve(out_profile)")] :=
+  ⟨by decide, by decide, by decide, rfl⟩
+
+/-! ## a concrete state for the non-vacuity examples
+
+  0,1  cross-section and classifier set of the caller's profile 2;   3 groove classifiers, 4 groove, 5 roll template;
+  6 roll pass (auto-rotation on) with list 7 and pass roll 8;   9 transport (one disk element) with list 10;
+  11 sequence [6, 9] with list 12. -/
+def ex0 : S :=
+  let s0 : S := { h := H.empty }
+  let s1 := (s0.alloc { kind := .value, content := [1] }).1
+  let s2 := (s1.alloc { kind := .value, content := [2] }).1
+  let s3 := (s2.alloc { kind := .profile, fields := [(fCS, 0), (fCL, 1)] }).1
+  let s4 := (s3.alloc { kind := .value, content := [5] }).1
+  let s5 := (s4.alloc { kind := .groove, fields := [(fCL, 3)] }).1
+  let s6 := (s5.alloc { kind := .rollTemplate, fields := [(fGROOVE, 4)] }).1
+  let s7 := (s6.alloc { kind := .unit, tag := 1, rot := true }).1
+  let s8 := (s7.alloc { kind := .subList, weak := some 6 }).1
+  let s9 := s8.write 6 fSUB 7
+  let s10 := (s9.alloc { kind := .passRoll, fields := [(fGROOVE, 4)], weak := some 6 }).1
+  let s11 := s10.write 6 fROLL 8
+  let s12 := (s11.alloc { kind := .unit, tag := 2, disks := 1 }).1
+  let s13 := (s12.alloc { kind := .subList, weak := some 9 }).1
+  let s14 := s13.write 9 fSUB 10
+  let s15 := (s14.alloc { kind := .unit, tag := 3 }).1
+  let s16 := (s15.alloc { kind := .subList, weak := some 11, items := [6, 9] }).1
+  let s17 := s16.write 11 fSUB 12
+  (s17.setWeak 6 (some 11)).setWeak 9 (some 11)
+
+theorem ex0_good : Good ex0 := by
+  have g0 := Good.empty
+  have g1 := g0.alloc { kind := .value, content := [1] } (by decide) (by decide) (by decide)
+  have g2 := g1.alloc { kind := .value, content := [2] } (by decide) (by decide) (by decide)
+  have g3 := g2.alloc { kind := .profile, fields := [(fCS, 0), (fCL, 1)] } (by decide) (by decide) (by decide)
+  have g4 := g3.alloc { kind := .value, content := [5] } (by decide) (by decide) (by decide)
+  have g5 := g4.alloc { kind := .groove, fields := [(fCL, 3)] } (by decide) (by decide) (by decide)
+  have g6 := g5.alloc { kind := .rollTemplate, fields := [(fGROOVE, 4)] } (by decide) (by decide) (by decide)
+  have g7 := g6.alloc { kind := .unit, tag := 1, rot := true } (by decide) (by decide) (by decide)
+  have g8 := g7.alloc { kind := .subList, weak := some 6 } (by decide) (by decide) (by decide)
+  have g9 := g8.write (o := 6) (f := fSUB) (v := 7) (by decide) (by decide) (by decide)
+  have g10 := g9.alloc { kind := .passRoll, fields := [(fGROOVE, 4)], weak := some 6 } (by decide) (by decide) (by decide)
+  have g11 := g10.write (o := 6) (f := fROLL) (v := 8) (by decide) (by decide) (by decide)
+  have g12 := g11.alloc { kind := .unit, tag := 2, disks := 1 } (by decide) (by decide) (by decide)
+  have g13 := g12.alloc { kind := .subList, weak := some 9 } (by decide) (by decide) (by decide)
+  have g14 := g13.write (o := 9) (f := fSUB) (v := 10) (by decide) (by decide) (by decide)
+  have g15 := g14.alloc { kind := .unit, tag := 3 } (by decide) (by decide) (by decide)
+  have g16 := g15.alloc { kind := .subList, weak := some 11, items := [6, 9] } (by decide) (by decide) (by decide)
+  have g17 := g16.write (o := 11) (f := fSUB) (v := 12) (by decide) (by decide) (by decide)
+  have g18 := g17.setWeak (o := 6) (w := some 11) (by decide) (by decide)
+  exact g18.setWeak (o := 9) (w := some 11) (by decide) (by decide)
+
+/-- the example sequence solved once with the caller's profile 2 (two passes of the outer loop) -/
+def ex0i : S := { ex0 with its := [2, 1, 1, 1, 1, 1, 1, 1, 1] }
+def ex1 : S := (solveU P 4 ex0i 11 2).1
+
+/-! ## 1. solve writes only to what it allocated or what the solved unit owns -/
+
+/-- Every write (entry, weak link, in-place change) of `unit.solve(profile)` targets an object allocated by this
+very solve or an object OWNED by the unit: the unit itself, its out-profile, its pass roll, its sub-unit list and,
+recursively, whatever its sub-units own. -/
+theorem solve_writes_only_owned (fuel : Nat) (s : S) (u p : Nat) (w : Wf s.h) (hu : u < s.h.next)
+    (hp : p < s.h.next) :
+    ∃ t, (solveU P fuel s u p).1.tr = s.tr ++ t ∧ ∀ o ∈ targets t, s.h.next ≤ o ∨ Owned s.h u o :=
+  (solveU_spec P model_producers_safe fuel s u p w hu hp).trk.tr
+
+/-- …and semantically: an existing object that the unit does not own is exactly as before (all entries, the weak
+link, list items, content) -/
+theorem solve_frame (fuel : Nat) (s : S) (u p : Nat) (w : Wf s.h) (hu : u < s.h.next) (hp : p < s.h.next)
+    (o : Nat) (ho : o < s.h.next) (hn : ¬ Owned s.h u o) : (solveU P fuel s u p).1.h.obj o = s.h.obj o :=
+  (solveU_spec P model_producers_safe fuel s u p w hu hp).trk.frame o ho hn
+
+/-- never the caller's profile, a groove, a roll template or a value: objects of these kinds are owned by no unit
+(in a typed heap), so no write targets them and they are unchanged -/
+theorem solve_never_touches_inputs (fuel : Nat) (s : S) (u p : Nat) (g : Good s) (hu : u < s.h.next)
+    (hp : p < s.h.next) (hk : (s.h.obj u).kind = .unit) (q : Nat) (hq : q < s.h.next)
+    (hs : stableKind (s.h.obj q).kind) :
+    (solveU P fuel s u p).1.h.obj q = s.h.obj q ∧
+    ∀ t, (solveU P fuel s u p).1.tr = s.tr ++ t → q ∉ targets t := by
+  have hno : ¬ Owned s.h u q := fun ho => stable_not_owned hs (ho.kind g.typed hk)
+  refine ⟨solve_frame fuel s u p g.wf hu hp q hq hno, ?_⟩
+  intro t ht hmem
+  obtain ⟨t', ht', hok⟩ := solve_writes_only_owned fuel s u p g.wf hu hp
+  have : t = t' := List.append_cancel_left (ht.symm.trans ht')
+  subst this
+  rcases hok q hmem with h | h
+  · omega
+  · exact hno h
+
+-- non-vacuity: the hypotheses hold for the example; the solve there writes (among new objects) to the sequence 11,
+-- the pass 6, its roll 8, the transport 9 and to nothing else that existed
+example : Good ex0 ∧ (11 : Nat) < ex0.h.next ∧ (2 : Nat) < ex0.h.next ∧ (ex0.h.obj 11).kind = .unit :=
+  ⟨ex0_good, by decide, by decide, by decide⟩
+set_option maxRecDepth 100000 in
+example : ((targets (ex1.tr.drop ex0.tr.length)).filter (· < ex0.h.next)).eraseDups = [11, 6, 8, 9] := by decide
+example : stableKind (ex0.h.obj 2).kind ∧ stableKind (ex0.h.obj 4).kind ∧ stableKind (ex0.h.obj 5).kind ∧
+    stableKind (ex0.h.obj 1).kind := by
+  unfold stableKind; decide
+
+/-! ## 2. the returned profile is fresh -/
+
+/-- `solve` returns an object allocated by this solve: a plain `Profile` without back-link, and at the moment of
+return NO object refers to it (it is neither the unit's out-profile nor stored anywhere) -/
+theorem returned_profile_fresh (fuel : Nat) (s : S) (u p : Nat) (w : Wf s.h) (hu : u < s.h.next)
+    (hp : p < s.h.next) :
+    let r := solveU P fuel s u p
+    s.h.next ≤ r.2 ∧ r.2 < r.1.h.next ∧ (r.1.h.obj r.2).kind = .profile ∧ (r.1.h.obj r.2).weak = none ∧
+      (∀ o, r.2 ∉ (r.1.h.obj o).ptrs) ∧ getF r.1.h u fOUT ≠ some r.2 := by
+  have sp := solveU_spec P model_producers_safe fuel s u p w hu hp
+  refine ⟨sp.ret_lo, sp.ret_hi, sp.ret_kind, sp.ret_weak, sp.ret_unref, ?_⟩
+  intro h
+  exact sp.ret_unref u (getF_mem_ptrs h)
+
+-- non-vacuity: in the example the returned profile is object 53; the sequence's out-profile is another object whose
+-- public entries it shares by reference
+example : (solveU P 4 ex0i 11 2).2 = ex1.h.next - 1 := by decide
+example : getF ex1.h 11 fOUT ≠ some (ex1.h.next - 1) ∧
+    (ex1.h.obj (ex1.h.next - 1)).fields = pubFields ex1.h ((getF ex1.h 11 fOUT).getD 0) := by decide
+
+/-! ## 3. earlier profiles are stable under every later solve / edit -/
+
+/-- Through ANY history of later solves (of any unit, with any profile) and edits (append, replace, change a
+keyword value), every existing plain profile (the caller's, one returned earlier), every in-profile, every value
+object, groove and roll template stays exactly as it is — entries, identity of the referenced values, content. -/
+theorem earlier_profiles_stable (ops : List Op) (s : S) (g : Good s) (q : Nat) (hq : q < s.h.next)
+    (hs : stableKind (s.h.obj q).kind) : (run P s ops).h.obj q = s.h.obj q :=
+  (keeps_run P model_producers_safe ops s g).stable q hq hs
+
+/-- …and the history keeps the heap well-formed and typed, so the statement applies again afterwards -/
+theorem history_keeps_good (ops : List Op) (s : S) (g : Good s) : Good (run P s ops) :=
+  (keeps_run P model_producers_safe ops s g).good
+
+/-- an out-profile (it IS rewritten when its own unit is solved again) is untouched by a solve of any unit that does
+not own it — e.g. the out-profile of an earlier position while a later position is solved alone -/
+theorem earlier_out_profile_stable (fuel : Nat) (s : S) (u p q : Nat) (w : Wf s.h) (hu : u < s.h.next)
+    (hp : p < s.h.next) (hq : q < s.h.next) (hn : ¬ Owned s.h u q) :
+    (solveU P fuel s u p).1.h.obj q = s.h.obj q := solve_frame fuel s u p w hu hp q hq hn
+
+-- non-vacuity: after the first solve, the returned profile and the pass's in-profile survive a history that re-solves
+-- the sequence, solves the transport alone, changes the gap of the pass, appends a unit and re-solves
+def exOps : List Op := [.solve 11 2, .solve 9 2, .gap 6, .append 11 9, .solve 11 (ex1.h.next - 1)]
+set_option maxRecDepth 100000 in
+example : (ex1.h.obj (ex1.h.next - 1)).kind = .profile ∧
+    (run P ex1 exOps).h.obj (ex1.h.next - 1) = ex1.h.obj (ex1.h.next - 1) ∧ ex1.h.next < (run P ex1 exOps).h.next := by
+  decide
+
+-- solving the transport 9 ALONE (a later position) leaves the pass's out-profile (object 26) as it is
+set_option maxRecDepth 100000 in
+example : getF ex1.h 6 fOUT = some 26 ∧ (solveU P 3 ex1 9 2).1.h.obj 26 = ex1.h.obj 26 := by decide
+
+/-! ## 4. no in-place modification of shared values -/
+
+/-- A producer that passes the static check changes in place ONLY objects created by the same run: every write
+target of its trace is new, and every object that existed before (in particular every set obtained from another
+object) is exactly as before. -/
+theorem no_inplace_on_shared_values (p : Prog) (hp : p.safe = true) (s : S) (w : Wf s.h) (fe : Nat → Nat)
+    (gd : Nat → Bool) (hfe : ∀ q, fe q < s.h.next) (h0 : 0 < s.h.next) :
+    (∃ t, (runProg fe gd p [] s).1.tr = s.tr ++ t ∧ ∀ o ∈ targets t, s.h.next ≤ o) ∧
+    (∀ o, o < s.h.next → (runProg fe gd p [] s).1.h.obj o = s.h.obj o) := by
+  have hown' : ∀ u o, Owned s.h u o → s.h.next ≤ u → o = u := by
+    intro u o ho
+    induction ho with
+    | self => intro _; rfl
+    | field _ hg => intro hu; have := w.lt_of_getF hg; omega
+    | child hl _ _ _ => intro hu; have := w.lt_of_getF hl; omega
+  have hown : ∀ o, Owned s.h s.h.next o → o = s.h.next := fun o ho => hown' _ o ho (Nat.le_refl _)
+  obtain ⟨st, _⟩ := runProg_spec (hb := s.h) (u := s.h.next) (tr0 := s.tr) fe gd p [] [] s hp
+    (Trk.refl w s.h.next) hfe (by intro v x h; simp [List.lookup] at h) (by intro v h; cases h) h0
+  obtain ⟨t, ht, hok⟩ := st.trk.tr
+  refine ⟨⟨t, ht, ?_⟩, ?_⟩
+  · intro o ho
+    rcases hok o ho with h | h
+    · exact h
+    · rw [hown o h]; exact Nat.le_refl _
+  · intro o ho
+    apply st.trk.frame o ho
+    intro h; have := hown o h; omega
+
+/-- the same for the translated producers of the core (instances of the theorem above) -/
+theorem core_producers_no_inplace (name : String) (p : Prog) (hmem : (name, p) ∈ Gen.C12.producers) (s : S)
+    (w : Wf s.h) (fe : Nat → Nat) (gd : Nat → Bool) (hfe : ∀ q, fe q < s.h.next) (h0 : 0 < s.h.next) :
+    ∀ o, o < s.h.next → (runProg fe gd p [] s).1.h.obj o = s.h.obj o := by
+  have hall := translated_producers_safe
+  rw [List.all_eq_true] at hall
+  exact (no_inplace_on_shared_values p (hall _ hmem) s w fe gd hfe h0).2
+
+/-- through any history of solves and edits the content of an existing value object never changes -/
+theorem value_content_stable (ops : List Op) (s : S) (g : Good s) (v : Nat) (hv : v < s.h.next)
+    (hk : (s.h.obj v).kind = .value) : ((run P s ops).h.obj v).content = (s.h.obj v).content := by
+  rw [earlier_profiles_stable ops s g v hv (Or.inr (Or.inr (Or.inl hk)))]
+
+-- non-vacuity: the rotator's producer run on the caller's classifier set 1 creates new sets and adds to the new one;
+-- a producer that adds to the received set is rejected by the check, and running it DOES change the caller's set
+example : (runProg (fun _ => 1) (fun _ => true) Gen.C12.rotatorClassifiers [] ex0).2 = some 14 ∧
+    ((runProg (fun _ => 1) (fun _ => true) Gen.C12.rotatorClassifiers [] ex0).1.h.obj 14).content = [2, 0, 1, 2, 3] ∧
+    ((runProg (fun _ => 1) (fun _ => true) Gen.C12.rotatorClassifiers [] ex0).1.h.obj 1).content = [2] := by decide
+def badProducer : Prog := [{ act := .assign 0 (.foreign 0) }, { act := .add 0 7 }, { act := .ret (.var 0) }]
+example : badProducer.safe = false ∧
+    ((runProg (fun _ => 1) (fun _ => true) badProducer [] ex0).1.h.obj 1).content = [2, 7] := by decide
+
+/-! ## 5. a deep copy is disjoint from the original and closed -/
+
+/-- `copy.deepcopy(o)` (empty memo) of any object of a well-formed heap:
+  * leaves every existing object exactly as it is and writes only to objects it creates,
+  * returns a NEW object of the same kind (an immutable atom is returned itself),
+  * CLOSED: whatever is reachable from the copy — through strong entries, list items AND the weak back-links
+    (`_parent`, `_unit`, `_roll_pass`, `_owner`) — is an object created by this copy, or an atom;
+    in particular every back-reference inside the copy points into the copy,
+  * DISJOINT: what is reachable from the copy and also from the original is an atom (immutable):
+    no unit, profile, roll, sub-unit list, groove or mutable value is shared. -/
+theorem deepcopy_disjoint_and_closed (s : S) (w : Wf s.h) (o : Nat) (ho : o < s.h.next) :
+    let r := deepCopy s o
+    (∀ x, x < s.h.next → r.1.h.obj x = s.h.obj x) ∧
+    (∃ t, r.1.tr = s.tr ++ t ∧ ∀ x ∈ targets t, s.h.next ≤ x) ∧
+    ((s.h.obj o).kind ≠ .atom → s.h.next ≤ r.2.2) ∧
+    (r.1.h.obj r.2.2).kind = (s.h.obj o).kind ∧
+    (∀ x, Reach r.1.h r.2.2 x → s.h.next ≤ x ∨ (s.h.obj x).kind = .atom) ∧
+    (∀ x, Reach r.1.h r.2.2 x → Reach s.h o x → (s.h.obj x).kind = .atom) := by
+  have c := copyObj_spec (hb := s.h) (tr0 := s.tr) w (s.h.next + 1) s [] o (DInv.init w) ho
+  unfold deepCopy
+  have hcl : ∀ x, Reach (copyObj (s.h.next + 1) s [] o).1.h (copyObj (s.h.next + 1) s [] o).2.2 x →
+      s.h.next ≤ x ∨ (s.h.obj x).kind = .atom :=
+    fun x hr => reach_fresh c.inv hr c.fresh
+  refine ⟨c.inv.frame, c.inv.tr, ?_, c.kind, hcl, ?_⟩
+  · intro hk
+    rcases c.fresh with h | h
+    · exact h
+    · apply Nat.le_of_not_lt
+      intro hlt
+      have e := c.kind
+      rw [c.inv.frame _ hlt] at e
+      rw [e] at h
+      exact hk h
+  · intro x h1 h2
+    rcases hcl x h1 with h | h
+    · have := reach_old w h2 ho; omega
+    · exact h
+
+-- non-vacuity: deep copy of the SOLVED example sequence 11: the copy is a new unit; the parent link of the copied
+-- pass, the unit link of its in-profile, the pass link of its roll and the owner link of its list all point to NEW
+-- objects (the copies), and nothing of the original changed
+def exCopy : S × Memo × Nat := deepCopy ex1 11
+theorem ex0i_wf : Wf ex0i.h := ex0_good.wf
+example : Wf ex1.h :=
+  (solveU_spec P model_producers_safe 4 ex0i 11 2 ex0i_wf (by decide) (by decide)).trk.wf
+set_option maxRecDepth 100000 in
+example :
+    let c6 := (exCopy.2.1.lookup 6).getD 0
+    let i := (getF exCopy.1.h c6 fIN).getD 0
+    let r := (getF exCopy.1.h c6 fROLL).getD 0
+    let l := (getF exCopy.1.h c6 fSUB).getD 0
+    ex1.h.next ≤ exCopy.2.2 ∧ (exCopy.1.h.obj exCopy.2.2).kind = .unit ∧
+    ex1.h.next ≤ c6 ∧ (exCopy.1.h.obj c6).weak = some exCopy.2.2 ∧
+    (exCopy.1.h.obj i).weak = some c6 ∧ (exCopy.1.h.obj r).weak = some c6 ∧ (exCopy.1.h.obj l).weak = some c6 ∧
+    ex1.h.next ≤ i ∧ ex1.h.next ≤ r ∧ ex1.h.next ≤ l ∧ exCopy.1.h.obj 6 = ex1.h.obj 6 := by decide
+
+end C12
